@@ -178,6 +178,17 @@ def gen_config(rng, quick, it):
     shape = lu.rand_shape(rng, nd, nprocs, hi=6 if quick else 8)
     connected = rng.random() < 0.93
     lays = lu.rand_layout_set(rng, nd, nprocs, want_connected=connected)
+    if it % 6 == 5:
+        # many orderings of a 4-D array: several pairs are joined by more than one shortest route (ties in the route table); the
+        # declaration order is shuffled
+        nd = 4
+        nprocs = rng.choice([[2, 2], [2, 1], [1, 2], [2, 3]])
+        shape = lu.rand_shape(rng, nd, nprocs, hi=5)
+        lays = lu.rand_layout_set(rng, nd, nprocs, k=rng.randint(5, 7))
+        items = list(lays.items())
+        vals = [v for _, v in items]
+        rng.shuffle(vals)
+        lays = dict(zip([k for k, _ in items], vals))
     names = list(lays)
     allpairs = [(a, b) for a in names for b in names if a != b] + [(rng.choice(names),) * 2]
     k = min(len(allpairs), 6 if quick else 12)
